@@ -720,6 +720,8 @@ fn parse_type_atom_inner(p: &mut Parser) -> Result<Option<Type>, ErrorSet> {
                 Ok(128) => Ok(Some(Type::TwoTwoN(7))),
                 Ok(256) => Ok(Some(Type::TwoTwoN(8))),
                 Ok(512) => Ok(Some(Type::TwoTwoN(9))),
+                // larger words, as `Final`'s Display abbreviates them (up to 2^(2^31))
+                Ok(y) if y.is_power_of_two() => Ok(Some(Type::TwoTwoN(y.trailing_zeros()))),
                 Ok(y) => Err(ErrorSet::single(position, Error::Bad2ExpNumber(y))),
                 Err(_) => Err(ErrorSet::single(position, Error::NumberOutOfRange(raw))),
             }
